@@ -1,17 +1,16 @@
 #!/bin/bash
-# Applies a seeded change to /repo, runs the given checks (quick tier, reduced seeds unless SEEDS is set), and restores /repo.
-# usage: tools/try_seeded.sh <patch.diff> <PROP> [<PROP> ...]
+# Applies a seeded change to a scratch copy of /repo's working tree (outside /repo and /verif, removed afterwards), runs the given
+# checks against that copy (quick tier, reduced seeds unless SEEDS is set).  /repo itself is not touched, so other jobs may run.
+# usage: tools/try_seeded.sh <patch.diff> <PROP> [<PROP> ...]      env: SEEDS, NOMIN=1, KEEP=1 (keep the scratch build for the next call)
 set -u
 cd "$(dirname "$0")/.."
-patch="$1"; shift
-if ! git -C /repo diff --quiet; then echo "/repo has uncommitted changes"; exit 2; fi
-restore() { git -C /repo checkout -- . ; }
-trap restore EXIT
-if ! git -C /repo apply "$patch" 2>/dev/null && ! git -C /repo apply --3way "$patch" 2>/dev/null; then echo "patch does not apply"; exit 2; fi
-git -C /repo reset -q 2>/dev/null
-rc_all=0
+patch="$(readlink -f "$1")"; shift
+SCR=/var/tmp/tbfsim_try_repo; BLD=/var/tmp/tbfsim_try_build; EV=/var/tmp/tbfsim_try_ev
+rm -rf "$SCR"; mkdir -p "$SCR"
+rsync -a --exclude _build --exclude .git /repo/ "$SCR/"
+if ! ( cd "$SCR" && patch -p1 -s -i "$patch" ); then echo "patch does not apply"; rm -rf "$SCR"; exit 2; fi
 for p in "$@"; do
-  out=$(python3 tools/check.py "$p" ${SEEDS:+--seeds $SEEDS} --evidence-dir /var/tmp/tbfsim_seed_ev --replay-dir /var/tmp/tbfsim_seed_ev ${NOMIN:+--no-minimise} 2>&1); rc=$?
+  out=$(TBFSIM_REPO="$SCR" TBFSIM_BUILD="$BLD" python3 tools/check.py "$p" ${SEEDS:+--seeds $SEEDS} --evidence-dir "$EV" --replay-dir "$EV" ${NOMIN:+--no-minimise} 2>&1); rc=$?
   echo "== $p exit=$rc"; echo "$out" | grep -E "^violation|^FRAMEWORK|^OK" | cut -c1-300 | head -6
 done
-rm -rf /var/tmp/tbfsim_seed_ev
+rm -rf "$SCR" "$EV"; [ -n "${KEEP:-}" ] || rm -rf "$BLD"
